@@ -171,7 +171,7 @@ def eval_meta(ctx, case):
     if d is None and tr1['build_error'] is None and tr1['error'] is None and len(tr1['time']) >= 3:
         # a snapshot of both systems at the same physical instant between two recorded ones (default output units)
         d = snapshots_differ(ctx, tr1, b1, tr2, b2)
-        if d is None:
+        if d is None and ctx.rng.random() < 0.4:
             # ... and the exported files of both systems (default output units)
             d = exports_differ(ctx, b1, b2)
     if d is None:
